@@ -211,6 +211,9 @@ static bool judge_mc_adj(report& r, hep::multi_channel_result<T> const& res, std
     if (res.adjustment_data().size() != channels) { r.violate("mc-adjustment-size", id, what); return false; }
     for (sz j = 0; j != channels; ++j)
     {
+        // a disabled channel has no density the library could rely on (the map is told which channels are enabled so
+        // that it can leave the others alone): its datum is not part of the documented sums
+        if (res.channel_weights().size() == channels && res.channel_weights()[j] == T()) continue;
         if (!(std::fabs(L(res.adjustment_data()[j]) - want[j]) <= 32 * std::numeric_limits<T>::epsilon() * std::fabs(want[j])))
         {
             r.violate("mc-adjustment-data", id, what + ": adjustment datum of channel " + std::to_string(j) + " = " + vf::dec(L(res.adjustment_data()[j]))
